@@ -17,7 +17,7 @@ ID = "C06"
 LEVEL = "fault_enumeration"
 MIN_OUTCOMES = 3
 MANIFEST = {
-    'text': 'Single-fault enumeration over the rewrite phase: for every project shape (1..3 / 1..5 files, four pattern sets per file incl. partial patterns that do not change with the bump, v2 and legacy, TOML and INI), every order of the configured files (config entry explicit at every position or implicit), a file reached through a glob AND an explicit entry, a glob entry whose files have all been removed, a 5 MiB file / 300 files configured before the faulty one, and every fault position (pattern without match, missing file, configured path that is a directory, undecodable file, rejected version: lower, equal or malformed --set-version, bump without change, --set-version of a version that already exists as a tag) the real `update`, `update --dry` and `update` with commit/tag/push (fake git) are executed; with a fault they must exit non-zero, leave every byte unchanged and issue no add/commit/tag/push and no hook; fault-free controls must succeed. Project files differ in line-ending style (CRLF, LF, CR, with and without final newline) and carry non-ASCII text, so a restore that re-encodes them shows.',
+    'text': 'Single-fault enumeration over the rewrite phase: for every project shape (1..3 / 1..5 files, six pattern sets per file incl. the EMPTY pattern list, partial patterns that do not change with the bump and a pattern nested in another, v2 and legacy, TOML and INI), every order of the configured files (config entry explicit at every position or implicit), a file reached through a glob AND an explicit entry, a glob entry whose files have all been removed, a 5 MiB file / 300 files configured before the faulty one, and every fault position (pattern without match, missing file, configured path that is a directory, undecodable file, rejected version: lower, equal or malformed --set-version, bump without change, --set-version of a version that already exists as a tag) the real `update`, `update --dry` and `update` with commit/tag/push (fake git) are executed; with a fault they must exit non-zero, leave every byte unchanged and issue no add/commit/tag/push and no hook; fault-free controls must succeed. Project files differ in line-ending style (CRLF, LF, CR, with and without final newline) and carry non-ASCII text, so a restore that re-encodes them shows.',
     'note': 'double faults and I/O errors of the write itself (disk full, permissions) are outside the bound',
     'technique': 'exhaustive single-fault enumeration (deviation bound 1) over file orders on the real CLI with a fake VCS seam',
 }
@@ -37,7 +37,8 @@ ENGINES = {
 }
 # pattern sets of a file (indices into pats): full / full+second / partial pattern that does not change with --patch / mixed
 # (5: a pattern whose text CONTAINS another pattern of the same file, listed first so that both find their own occurrence)
-PATSETS = {1: (0,), 2: (0, 1), 3: (2,), 4: (2, 0), 5: (3, 0)}
+# (0: an entry with an EMPTY pattern list - the file is configured, must exist, and has nothing to search)
+PATSETS = {0: (), 1: (0,), 2: (0, 1), 3: (2,), 4: (2, 0), 5: (3, 0)}
 
 
 FILE_STYLE = [("\r\n", True), ("\n", True), ("\r", True), ("\r\n", False), ("\n", False)]
@@ -57,13 +58,13 @@ def explore(tier, seed):
     for engine in sorted(ENGINES):
         for fmt in ("bumpver.toml", "setup.cfg"):
             for n in range(1, nmax + 1):
-                for npat in itertools.product((1, 2, 3, 4, 5), repeat=n):
+                for npat in itertools.product((0, 1, 2, 3, 4, 5), repeat=n):
                     if n >= 2 and npat != tuple(sorted(npat)) and not (n == 2 and tier != "quick"):
                         continue  # pattern sets per file: only sorted distributions (file order is permuted anyway)
                     if n >= 3 and len(set(npat)) > 2:
                         continue
-                    if n >= 3 and 5 in npat and tier == "quick":
-                        continue  # (the nested-pattern set: one and two files in the quick tier)
+                    if n >= 3 and (5 in npat or 0 in npat) and tier == "quick":
+                        continue  # (the nested-pattern set and the empty pattern list: one and two files in the quick tier)
                     if n >= 5 and len(set(npat)) > 1:
                         continue  # five files: the same pattern set in every file (all 120/720 orders x every fault)
                     for explicit in (False, True):
